@@ -352,6 +352,7 @@ func init() {
 			ruleQueryPaths(r)
 			rulePool(r)
 			ruleCommitOrder(r, false, true)
+			ruleCommitUpdates(r)
 		}})
 	register(&PropSpec{ID: "C16",
 		Explanation: "Sorted-index iteration complete and ordered — structural part. (C16.cmp) the ordering handed to the tree reads every field of the item; (C16.arms) arm effects of columnSortIndex.Apply; (C16.scan) Ascend scans ascending and filters by the selection; (C04.cursor) cursor positioned; (C01.alias) keys are copies; (C11.order) a put+delete of one row leaves no entry." + staticNote,
